@@ -150,6 +150,14 @@ type Machine struct {
 	model          map[string]uint64 // a model of the current path condition, or nil
 	replayPos      int
 	axioms         int
+	passCtx        value
+
+	textMemo      map[int32]string
+	pcTexts       []string
+	pcKeyStr      string
+	pcKeyValid    bool
+	pcUncacheable bool
+	cacheHits     int
 }
 
 type pathResult struct {
@@ -269,7 +277,7 @@ func (m *Machine) addPC(c *Term, b bool) {
 	if !b {
 		c = m.ts.BNot(c)
 	}
-	m.pc = append(m.pc, c)
+	m.pushPC(c)
 	m.solver.Assert(c)
 }
 
@@ -396,7 +404,7 @@ func (m *Machine) assume(c *Term) {
 	}
 	if len(m.decs) < len(m.prefix) {
 		// replaying: feasibility known
-		m.pc = append(m.pc, c)
+		m.pushPC(c)
 		m.solver.Assert(c)
 		if m.model != nil && m.ts.Eval(c, m.model) != 1 {
 			m.model = nil
@@ -412,7 +420,7 @@ func (m *Machine) assume(c *Term) {
 			panic(engineAbort{abortSolver, "solver unknown on assume"})
 		}
 	}
-	m.pc = append(m.pc, c)
+	m.pushPC(c)
 	m.solver.Assert(c)
 }
 
@@ -430,7 +438,12 @@ func (m *Machine) assert(c *Term, label string, fr *frame) {
 		return
 	}
 	nc := m.ts.BNot(c)
+	key, cv, hit := m.cacheLookup(nc)
+	if hit && cv == Unsat {
+		return
+	}
 	v, model := m.checkSatModel(nc)
+	m.cacheStore(key, v)
 	switch v {
 	case Unsat:
 		// holds on this path; c is implied, no need to add
@@ -504,6 +517,7 @@ type Result struct {
 	Funcs        map[string]int // function -> ssa instruction count
 	Solver       SolverStats
 	Fallback     FallbackStats
+	CacheHits    int
 	MaxPathSteps int64
 	MaxPathDecs  int
 	Samples      []PathSample
@@ -591,6 +605,7 @@ func (p *Program) Explore(cfg Config) *Result {
 				active--
 				frontier = append(frontier, m.forks...)
 				res.Steps += m.steps
+				res.CacheHits += m.cacheHits
 				res.Fallback.Sat += m.fb.Sat
 				res.Fallback.Unsat += m.fb.Unsat
 				res.Fallback.Unknown += m.fb.Unknown
@@ -734,7 +749,7 @@ func (p *Program) runPath(cfg *Config, fn *ssa.Function, prefix []pdec, solver *
 		ndCount: map[string]int{}, covers: map[string]bool{}, knownHit: map[string]bool{},
 		result: make(chan pathResult, 1), mutexes: map[*value]*mutexState{},
 		side: map[any]any{}, funcsSeen: map[*ssa.Function]*fnInfo{},
-		model: map[string]uint64{},
+		model: map[string]uint64{}, textMemo: map[int32]string{},
 	}
 	m.runtimeErrorT = p.runtimeErrorT
 	solver.Push()
@@ -830,9 +845,9 @@ func (m *Machine) noteFunc(fn *ssa.Function, fi *fnInfo) {
 
 func (r *Result) Summary() string {
 	var sb strings.Builder
-	fmt.Fprintf(&sb, "%s: paths=%d completed=%d pruned=%d panicked=%d deadlocked=%d decisions=%d asserts=%d steps=%d solver(sat=%d unsat=%d unknown=%d %.1fs; sent %dMB in %.1fs) wall=%.1fs",
+	fmt.Fprintf(&sb, "%s: paths=%d completed=%d pruned=%d panicked=%d deadlocked=%d decisions=%d asserts=%d steps=%d solver(sat=%d unsat=%d unknown=%d %.1fs; sent %dMB in %.1fs; cache hits %d) wall=%.1fs",
 		r.Harness, r.Paths, r.Completed, r.Infeasible, r.Panicked, r.Deadlocked, r.Decisions, r.Asserts, r.Steps,
-		r.Solver.Sat, r.Solver.Unsat, r.Solver.Unknown, r.Solver.Seconds, r.Solver.BytesSent>>20, r.Solver.SendSeconds, r.Wall)
+		r.Solver.Sat, r.Solver.Unsat, r.Solver.Unknown, r.Solver.Seconds, r.Solver.BytesSent>>20, r.Solver.SendSeconds, r.CacheHits, r.Wall)
 	if len(r.Violations) > 0 {
 		fmt.Fprintf(&sb, " VIOLATIONS=%d", len(r.Violations))
 	}
